@@ -4,6 +4,7 @@ import (
 	"context"
 	"errors"
 	"fmt"
+	"github.com/cloudwego/eino/callbacks"
 	"io"
 	"strconv"
 	"strings"
@@ -315,6 +316,13 @@ func (b *builder) body(ctx context.Context, p *Plan, n *Node, full string, in M,
 	e.S.Log(fmt.Sprintf("exec %s %s <- %s", tag, full, rec.Input))
 	for i := 0; i < n.Yields; i++ {
 		e.S.Yield("body:" + full)
+	}
+	if n.Detach {
+		// inner work the node wants no handler to see: a fresh callback context without handlers
+		ictx := callbacks.InitCallbacks(ctx, &callbacks.RunInfo{Name: "inner:" + full, Type: "Inner", Component: compose.ComponentOfLambda})
+		ictx = callbacks.OnStart(ictx, "inner-input")
+		callbacks.OnEnd(ictx, "inner-output")
+		e.Probes["detached_inner_work"]++
 	}
 	if n.UseState {
 		failNow := n.FailInState && n.FailAt >= 0 && n.FailAt == e.doneCount[ck] && (n.FailTag == "" || n.FailTag == tag) &&
@@ -848,6 +856,8 @@ func (b *builder) workflow(p *Plan, path string) (compose.AnyGraph, error) {
 					k = "in"
 				}
 				maps = []*compose.FieldMapping{compose.MapFields(k, e.From+"_v")}
+			case MapNested:
+				maps = []*compose.FieldMapping{compose.MapFieldPaths(compose.FieldPath{e.From, e.From}, compose.FieldPath{e.From + "_v"})}
 			}
 		}
 		switch {
